@@ -135,9 +135,10 @@ SPECS = {
     "C10": dict(shards=(8, 32), level="exploration",
                 floors={"quick": {"soups": 250, "commit_built": 200, "receiver_accepted": 700, "build_refused_as_expected": 80,
                                   "by_ref_offenders_dropped": 80, "insider_refused": 800, "unused_sets_compared": 600,
-                                  "missing_proposal_refused:ProposalNotFound": 20, "commit_after_refused_build_ok": 60}},
+                                  "missing_proposal_refused:ProposalNotFound": 20, "commit_after_refused_build_ok": 60,
+                                  "follow_up_commits": 150, "follow_up_accepted": 600, "item:ref:add_custom_credential": 15}},
                 show=("histories", "soups", "commit_built", "receiver_accepted", "build_refused", "by_ref_offenders", "insider_refused",
-                      "unused_sets", "missing_prop", "reinit_commit", "applied:", "proposer_refused", "offender_refused", "commit_after"),
+                      "unused_sets", "missing_prop", "reinit_commit", "applied:", "proposer_refused", "offender_refused", "commit_after", "follow_up"),
                 rule="one evaluation = one soup (random multiset of by-reference and by-value proposals, valid and offending, one committer), "
                      "one receiver decision about its commit, or one receiver decision about an insider commit carrying an offender; distinct = "
                      "distinct (build class, number of by-reference offenders, cache size, by-value count, timed) / (receiver lacks a "
